@@ -14,7 +14,7 @@ func TestS2(t *testing.T) {
 
 // TestS4 is the stress variant: real goroutines, watches opened while writes are in flight.
 func TestS4(t *testing.T) {
-	for _, impl := range []string{"inmem", "backed-mem", "bolt", "grpc"} {
+	for _, impl := range []string{"inmem", "backed-mem", "backed-faulty", "bolt", "grpc"} {
 		q, th := 150, 1500
 		if impl == "grpc" || impl == "bolt" {
 			q, th = 40, 400
